@@ -510,3 +510,60 @@ func genWireDec(p *pkg, out string) {
 		"Lemma sync_wire_dec_progs : g_wire_dec_progs = wire_dec_progs.\nProof. vm_compute. reflexivity. Qed.\n"
 	os.WriteFile(filepath.Join(out, "SyncWireDec.v"), []byte(lems), 0o644)
 }
+
+// ---------------------------------------------------------------- buffer.get
+
+func bufStmts(p *pkg, list []ast.Stmt) string {
+	var out []string
+	for _, s := range list {
+		out = append(out, bufStmt(p, s))
+	}
+	return "[" + strings.Join(out, "; ") + "]"
+}
+
+func bufStmt(p *pkg, s ast.Stmt) string {
+	src := squash(p.src(s))
+	switch src {
+	case "return":
+		return "G_ret"
+	case "b.err=ErrMissingData":
+		return "G_set_err_missing"
+	case "b.i+=v.width()":
+		return "G_adv_width"
+	case "b.i=len(b.data)":
+		return "G_set_i_len"
+	}
+	if x, ok := s.(*ast.IfStmt); ok && x.Else == nil {
+		if x.Init == nil {
+			c := map[string]string{"b.err!=nil": "GC_err", "b.i>=len(b.data)": "GC_i_ge_len", "b.i>len(b.data)": "GC_i_gt_len"}[squash(p.src(x.Cond))]
+			if c != "" {
+				return "G_if " + c + " " + bufStmts(p, x.Body.List)
+			}
+		} else if squash(p.src(x.Init)) == "b.err=v.UnmarshalBinary(b.data[b.i:])" && squash(p.src(x.Cond)) == "b.err!=nil" {
+			return "G_if_unmarshal_err " + bufStmts(p, x.Body.List)
+		}
+	}
+	return fmt.Sprintf("G_unknown %q", src)
+}
+
+func genBuf(p *pkg, out string) {
+	body := `[G_unknown "missing"]`
+	if fd := p.funcs["buffer.get"]; fd != nil && fd.Body != nil {
+		sig := squash(p.src(fd.Type))
+		if len(fd.Recv.List) == 1 && len(fd.Recv.List[0].Names) == 1 {
+			sig = "(" + fd.Recv.List[0].Names[0].Name + squash(p.src(fd.Recv.List[0].Type)) + ")" + sig
+		}
+		if sig == "(b*buffer)func(vwireType)" {
+			body = bufStmts(p, fd.Body.List)
+		} else {
+			body = fmt.Sprintf("[G_unknown %q]", "signature "+sig)
+		}
+	}
+	defs := "(* generated by tools/gosync (wire.go) - do not edit *)\nFrom MQ Require Import Model.BufIR.\nFrom Coq Require Import List String.\nImport ListNotations.\nLocal Open Scope string_scope.\n\n" +
+		"(* buffer.get, statement by statement *)\nDefinition g_get_prog : list gs :=\n  " + body + ".\n"
+	os.WriteFile(filepath.Join(out, "GenBuf.v"), []byte(defs), 0o644)
+	lems := "(* generated by tools/gosync (wire.go) - do not edit *)\nFrom MQ Require Import Model.BufIR gen.GenBuf.\nFrom Coq Require Import List String.\n\n" +
+		"(* buffer.get is the statement list the model runs (Proofs/BufIRP.v: running it is Codec.get_with) *)\n" +
+		"Lemma sync_get_prog : g_get_prog = get_prog.\nProof. vm_compute. reflexivity. Qed.\n"
+	os.WriteFile(filepath.Join(out, "SyncBuf.v"), []byte(lems), 0o644)
+}
